@@ -1,6 +1,7 @@
 package main
 
 import (
+	"bytes"
 	"encoding/json"
 	"fmt"
 	"os"
@@ -27,6 +28,9 @@ type c07Extra struct {
 	// Items (closure rule): the program's items with their dependencies. A rejected program must contain a
 	// definition that is rejected with nothing but what it references in front of it.
 	Items []seqItem `json:"items,omitempty"`
+	// RealStale: the variant is also run by the shipped fc on a real directory that already holds an (old, newer
+	// than the sources) gen_X.go for every X.fo argument; each must come out as in the simulated run.
+	RealStale bool `json:"real_stale,omitempty"`
 }
 
 // c07LastItems hands the item list of a generated pair to the closure rule without putting it into every scenario.
@@ -44,10 +48,11 @@ var reDeclStart = regexp.MustCompile(`^(?:func (\([^)]*\) )?([A-Za-z_][A-Za-z0-9
 
 func goDecls(src []byte, into map[string]string) bool {
 	lines := strings.SplitAfter(string(src), "\n")
-	key := ""
+	key, pkg := "", ""
 	var cur strings.Builder
 	flush := func() {
 		if key != "" {
+			key = pkg + key
 			if old, dup := into[key]; dup {
 				into[key] = old + "\n" + strings.TrimSpace(cur.String())
 			} else {
@@ -72,6 +77,14 @@ func goDecls(src []byte, into map[string]string) bool {
 		} else if strings.HasPrefix(l, "import ") || strings.HasPrefix(l, "package ") {
 			flush()
 			key = ""
+			if strings.HasPrefix(l, "package ") {
+				// declarations of another package than main are another name space
+				if pkg = strings.TrimSpace(strings.TrimPrefix(l, "package ")); pkg == "main" {
+					pkg = ""
+				} else {
+					pkg += "."
+				}
+			}
 		}
 		cur.WriteString(l)
 	}
@@ -159,10 +172,40 @@ func c07Variant(sc *Scenario) (*Scenario, *c07Extra) {
 	return v, &ex
 }
 
+// c07RealStale: "each X.fo argument yields gen_X.go next to it", also when an older gen_X.go is already there.
+func c07RealStale(c *Ctx, vs *Scenario) *Violation {
+	id := vs.Clone()
+	id.Enum = EnumSched{Mode: "identity"}
+	r1 := c.sim(c.B.FcVerif, id)
+	if r1.Exit != 0 || len(r1.Written()) == 0 {
+		return nil
+	}
+	rs := vs.Clone()
+	rs.Real = true
+	for _, p := range sortedKeys(r1.Written()) {
+		rs.Disk.Put(p, []byte("// output of an earlier run\npackage main\n"), "stale")
+	}
+	rr := RunReal(c.B.FcOff, rs, c.Work)
+	if rr.Exit != 0 {
+		return &Violation{Class: "fileset", Signature: "fileset:real-directory-stale-outputs",
+			Detail: fmt.Sprintf("accepted in simulation; the shipped fc on a real directory that already holds older outputs exits %d: %s", rr.Exit, tail(rr.Stdout+rr.Stderr, 200))}
+	}
+	for _, p := range sortedKeys(r1.Written()) {
+		if got, ok := rr.Changed[p]; !ok || !bytes.Equal(got, r1.Written()[p]) {
+			return &Violation{Class: "fileset", Signature: "fileset:real-directory-stale-outputs",
+				Detail: fmt.Sprintf("the shipped fc on a real directory that already holds an older %s (newer than the sources) does not leave there what the same invocation writes otherwise (rewritten: %v)", p, ok)}
+		}
+	}
+	return nil
+}
+
 func judgeC07(c *Ctx, sc *Scenario) *Violation {
 	vs, ex := c07Variant(sc)
 	if ex.Kind == "closure" {
 		return c07Closure(c, sc, ex)
+	}
+	if ex.RealStale {
+		return c07RealStale(c, vs)
 	}
 	base := sc.Clone()
 	base.Extra = nil
@@ -366,7 +409,75 @@ func cutSequence(r *common.Rng, texts []string, header string, nfiles int, dirs 
 }
 
 // c07Generated builds one base/variant pair from the generator (exact dependencies).
+// c07LaterPackage: files of package main followed by one file of another package that redeclares one of their
+// record names, declares a second record with the same fields and uses a literal of them (legal: package scopes
+// are separate, the latest declaration wins). The variant is that last file alone: its definitions refer to
+// nothing of the earlier files.
+func c07LaterPackage(c *Ctx, r *common.Rng, run int) *Scenario {
+	o := swarmOpts(r)
+	o.Items = r.Range(2, 14)
+	o.Generic = false
+	g := genItems(r, o, "")
+	var cands []*gRec
+	for _, rc := range g.recs {
+		ok := !rc.Generic && len(rc.Fields) > 0
+		for _, f := range rc.Fields {
+			if f.T == nil || f.T.K != "int" && f.T.K != "string" && f.T.K != "bool" {
+				ok = false
+			}
+		}
+		if ok {
+			cands = append(cands, rc)
+		}
+	}
+	if len(cands) == 0 {
+		return nil
+	}
+	rc := cands[r.Intn(len(cands))]
+	var fs, lit []string
+	for _, f := range rc.Fields {
+		fs = append(fs, f.Name+": "+f.T.String())
+		lit = append(lit, f.Name+"="+map[string]string{"int": "1", "string": "\"s\"", "bool": "true"}[f.T.K])
+	}
+	decl := func(n string) string { return "type " + n + " = {" + strings.Join(fs, "; ") + "}\n\n" }
+	use := "let zzLit () =\n  {" + strings.Join(lit, "; ") + "}\n\nlet zzGet (v:ZzSame) =\n  v." + rc.Fields[0].Name + "\n"
+	var other string
+	switch r.Intn(3) {
+	case 0:
+		other = decl(rc.Name) + decl("ZzSame") + use
+	case 1:
+		other = decl("ZzFirst") + decl(rc.Name) + decl("ZzSame") + use
+	default:
+		other = decl(rc.Name) + decl("ZzMid") + decl(rc.Name) + decl("ZzSame") + use
+	}
+	other = "package other\n\n" + other
+	var texts []string
+	for _, it := range g.items[1:] {
+		texts = append(texts, it.Text)
+	}
+	bargv, bfiles := cutSequence(r, texts, genHeader, r.Range(1, 3), []string{"b"}, false)
+	bfiles["pkg/pkg_all.foi"] = pkgAllFoi
+	bfiles["o/other.fo"] = []byte(other)
+	base := newProgram(fmt.Sprintf("gen:%d:later-package", run), append(append([]string{"pkg/pkg_all.foi"}, bargv...), "o/other.fo"), bfiles, "gen")
+	sc := base.scenario("C07", c.Seed, run)
+	vd := Disk{}
+	vd.Put("pkg/pkg_all.foi", pkgAllFoi, "corpus")
+	vd.Put("o/other.fo", []byte(other), "gen")
+	rd := vd.Clone()
+	ex := c07Extra{Kind: "delete-earlier-package", Argv: []string{"pkg/pkg_all.foi", "o/other.fo"}, Disk: vd,
+		RefArgv: []string{"pkg/pkg_all.foi", "o/other.fo"}, RefDisk: &rd,
+		History: "base: files of package main, then o/other.fo of package other redeclaring " + rc.Name + "; variant: o/other.fo alone"}
+	b, _ := json.Marshal(ex)
+	sc.Extra = b
+	return sc
+}
+
 func c07Generated(c *Ctx, r *common.Rng, run int) *Scenario {
+	if r.Chance(1, 12) {
+		if sc := c07LaterPackage(c, r, run); sc != nil {
+			return sc
+		}
+	}
 	o := swarmOpts(r)
 	o.Items = r.Range(2, 40)
 	if o.AndHeavy {
@@ -923,6 +1034,12 @@ func checkC07(tier string) {
 		r := common.NewRng(common.Mix(c.Seed, 7, uint64(i)))
 		sc := c07Generated(c, r, i)
 		sc.TickBudget = c05Budget
+		if i%4 == 3 {
+			// the history must not matter under any enumeration order either (base, reference and variant all run
+			// under this schedule; C05 says the order alone changes nothing)
+			sc.Enum = EnumSched{Mode: "seeded", Seed: common.Mix(c.Seed, 707, uint64(i)), Style: "mixed"}
+			c.count("runs_under_seeded_enumeration_schedule", 1)
+		}
 		vs, ex := c07Variant(sc)
 		base := sc.Clone()
 		base.Extra = nil
@@ -976,6 +1093,17 @@ func checkC07(tier string) {
 			}
 		}
 		c07LastItems.Delete(i)
+		if v == nil && i%16 == 5 && r1.Exit == 0 {
+			c.count("real_directory_runs_over_stale_outputs", 1)
+			rsc := sc.Clone()
+			ex2 := *ex
+			ex2.RealStale = true
+			b, _ := json.Marshal(ex2)
+			rsc.Extra = b
+			if rv := judgeC07(c, rsc); rv != nil {
+				return outcome{rsc, rv}
+			}
+		}
 		return outcome{sc, v}
 	}, nil)
 
